@@ -172,6 +172,7 @@ std::string idxC(const std::string & ct, std::size_t N, const std::vector<u64> &
   if (ct == "u64") return idxN<L, std::size_t>(N, sz, co);
   if (ct == "u32") return idxN<L, unsigned>(N, sz, co);
   if (ct == "i32") return idxN<L, int>(N, sz, co);
+  if (ct == "u16") return idxN<L, unsigned short>(N, sz, co);
   return "unsupported";
 }
 template <int L>
